@@ -197,9 +197,16 @@ theorem step_commitOrigin (w : World) (op : Op) :
 
 theorem createClientMsg_shape (s : State) (auth : Addr) (q : Chain) (ct : String) (h t pd : Nat) (v cs : Bool) (sn : Snapshot) :
     (createClientMsg s auth q ct h t pd v cs sn).1 = s ∨
-    (createClientMsg s auth q ct h t pd v cs sn).1 = setClient s q (Client.init ct h t pd sn) := by
+    ∃ cl1, (createClientMsg s auth q ct h t pd v cs sn).1 = setClient s q cl1 ∧
+      ∀ hh sn', cl1.cons hh = some sn' → sn' = sn := by
   unfold createClientMsg; repeat' split
-  all_goals first | exact Or.inl rfl | exact Or.inr rfl
+  all_goals first
+    | exact Or.inl rfl
+    | (refine Or.inr ⟨_, rfl, fun hh sn' hs => ?_⟩
+       simp only at hs
+       split at hs
+       · exact (Option.some.inj hs).symm
+       · cases hs)
 
 theorem upgradeClientMsg_shape (s : State) (auth : Addr) (q : Chain) (ct : String) (h t pd : Nat) (v cs : Bool) (sn : Snapshot) :
     (upgradeClientMsg s auth q ct h t pd v cs sn).1 = s ∨
@@ -278,17 +285,14 @@ theorem step_snaps (w : World) (op : Op) (q : Chain) (cl : Client) (hh : Nat) (s
   | setTime c now => simp only [step, Op.chain, setChain_same] at hc; exact Or.inl ⟨cl, hc, hs⟩
   | createClientMsg c auth q' ct h t pd v cs =>
     simp only [step, Op.chain, setChain_same] at hc
-    rcases createClientMsg_shape (w c) auth q' ct h t pd v cs (w q').core.ps.snapshot with e | e
+    rcases createClientMsg_shape (w c) auth q' ct h t pd v cs (w q').core.ps.snapshot with e | ⟨cl1, e, hcl1⟩
     · rw [e] at hc; exact Or.inl ⟨cl, hc, hs⟩
     · rw [e] at hc
       simp only [setClient, upd_apply] at hc
       split at hc
       · simp only [Option.some.injEq] at hc
         subst hc
-        simp only [Client.init] at hs
-        split at hs
-        · right; exact ⟨q', by simpa using hs.symm⟩
-        · cases hs
+        right; exact ⟨q', hcl1 hh sn hs⟩
       · exact Or.inl ⟨cl, hc, hs⟩
   | upgradeClientMsg c auth q' ct h t pd v cs =>
     simp only [step, Op.chain, setChain_same] at hc
